@@ -3,6 +3,7 @@ import ast
 
 from ..astutil import callable_parts, catches_everything, dotted, effective, method_call
 from ..cfg import cfg_of, fact_key, norm, walk_own
+from ..flow import cannot_raise
 from ..mutate import B, M
 from ..symexec import paths_of
 
@@ -223,6 +224,11 @@ def check(ctx):
     body = effective(pl.node.body)
     ok = len(body) == 1 and isinstance(body[0], ast.Try) and body[0].handlers and catches_everything(body[0].handlers[0]) and \
         not any(isinstance(x, ast.Raise) for h in body[0].handlers for s in h.body for x in walk_own(s)) and not body[0].finalbody
+    if ok:
+        # ... and the handler itself cannot fail: pass, or logging of plain names (taking the swallowed exception apart - its cause, its
+        # traceback - raises for exceptions that do not have one, and parallel() then raises after all)
+        hb = [s_ for h_ in body[0].handlers for s_ in h_.body]
+        ctx.inst('R3', pl, 'handler-cannot-raise', all(cannot_raise(s_) for s_ in hb), 'statements of the handler that may raise: %s' % [norm(s_)[:60] for s_ in hb if not cannot_raise(s_)])
     ctx.inst('R3', pl, 'swallows-exceptions', ok, 'parallel must wrap its whole body in try/except Exception without re-raising')
     cs = [c for c in walk_own(pl.node) if method_call(c, 'parallel_safe')]
     ctx.inst('R3', pl, 'delegates', len(cs) == 1 and [norm(a) for a in cs[0].args] == pl.params[1:3],
